@@ -14,7 +14,8 @@ One case = one C program against the lol-html C API, as a flat token list:
           | "BU" dst b encClass encLabelHex prealloc max graceful strict esi
           | "WR" r chunkHex events endEvents | "EN" r | "RF" r | "BF" b | "XF" s | "SF" v | "TL" dst
   events := "-" | unit(";"unit)*        unit := desc "@" [h("+"h)*]
-  desc   := "e/"id"/"canHaveContent"/"selfClosing"/"[attrHex(","attrHex)*] | "c" | "t/"last | "d/"nps | "z" | "g/"id
+  desc   := "e/"id"/"canHaveContent"/"selfClosing"/"[attr(","attr)*]"/"nameHex      attr := nameHex":"[valueHex]
+          | "c/"textHex | "t/"last | "d/"name"/"public"/"system (each "~" = absent | hex, "-" = empty) | "z" | "g/"id"/"nameHex
 
 `f` numbers name Rust methods (see docs/pkg-capi.md). `events` is what the real rewriter does with the
 chunk — which rewritable units it hands to which registered handlers — computed here from the token
@@ -26,7 +27,7 @@ TAGS = ["div", "p", "span", "a", "b", "i", "em", "ul", "li"]
 VOIDS = ["br", "img", "hr"]
 ATTRS = ["id", "class", "href", "data-x", "TITLE", "lang"]
 WORDS = ["hello", "a b", " ", "x", "lorem ipsum", "1 > 0", "q&a", "\n"]
-COMMENTS = ["", "c", " note ", "a-b", "x--y"]
+COMMENTS = ["", "", "c", " note ", "a-b", "x--y"]
 VALID_SEL = ["*", "div", "p", "span", "a", "b", "li", "em", "br", "img"]
 INVALID_SEL = ["", "a[", ">", "div >", "::", "p:foo(", "1a", "#"]
 ENC_OK = ["utf-8", "UTF-8", "utf8", "windows-1252", "latin1", "iso-8859-2", "koi8-r", "gbk", "shift_jis", " utf-8 "]
@@ -53,15 +54,23 @@ class Doc:
         self.toks = []  # dict(kind, bytes, ...)
         self.next_id = 0
         if rng.random() < 0.4:
+            # (source, name, public id, system id): None = absent, "" = present but empty
             dt = rng.choice(
                 [
-                    ("<!DOCTYPE html>", "100"),
-                    ('<!DOCTYPE html PUBLIC "-//W3C//DTD HTML 4.01//EN" "http://www.w3.org/TR/html4/strict.dtd">', "111"),
-                    ('<!doctype html SYSTEM "about:legacy-compat">', "101"),
-                    ("<!DOCTYPE>", "000"),
+                    ("<!DOCTYPE html>", "html", None, None),
+                    ('<!DOCTYPE html PUBLIC "-//W3C//DTD HTML 4.01//EN" "http://www.w3.org/TR/html4/strict.dtd">', "html", "-//W3C//DTD HTML 4.01//EN", "http://www.w3.org/TR/html4/strict.dtd"),
+                    ('<!doctype html SYSTEM "about:legacy-compat">', "html", None, "about:legacy-compat"),
+                    ("<!DOCTYPE>", None, None, None),
+                    ("<!DOCTYPE >", None, None, None),
+                    ('<!DOCTYPE html PUBLIC "" "">', "html", "", ""),
+                    ("<!DOCTYPE html PUBLIC '' ''>", "html", "", ""),
+                    ('<!DOCTYPE html SYSTEM "">', "html", None, ""),
+                    ('<!DOCTYPE html PUBLIC "">', "html", "", None),
+                    ('<!DOCTYPE html PUBLIC "x" "">', "html", "x", ""),
+                    ('<!DOCTYPE X PUBLIC "" "y">', "x", "", "y"),
                 ]
             )
-            self.toks.append(dict(kind="doctype", bytes=dt[0].encode(), flags=dt[1], anc=[]))
+            self.toks.append(dict(kind="doctype", bytes=dt[0].encode(), ids=dt[1:], anc=[]))
         self.gen_nodes(rng, [], 0, rng.randint(1, 5))
 
     def gen_nodes(self, rng, anc, depth, n):
@@ -74,7 +83,8 @@ class Doc:
                 else:
                     self.toks.append(dict(kind="text", bytes=w, anc=list(anc)))
             elif r < 0.38:
-                self.toks.append(dict(kind="comment", bytes=("<!--" + rng.choice(COMMENTS) + "-->").encode(), anc=list(anc)))
+                ct = rng.choice(COMMENTS)
+                self.toks.append(dict(kind="comment", bytes=("<!--" + ct + "-->").encode(), text=ct, anc=list(anc)))
             elif r < 0.5:
                 self.start_tag(rng, rng.choice(VOIDS), anc, void=True)
             else:
@@ -85,8 +95,9 @@ class Doc:
                 if getattr(self, "stop", False):
                     return True  # a descendant was left open: no end tag may follow (it would close it implicitly)
                 if rng.random() < 0.93:
-                    end = "</" + (name.upper() if rng.random() < 0.1 else name) + (" " if rng.random() < 0.1 else "") + ">"
-                    self.toks.append(dict(kind="end", bytes=end.encode(), id=eid, anc=list(anc)))
+                    ename = name.upper() if rng.random() < 0.1 else name
+                    end = "</" + ename + (" " if rng.random() < 0.1 else "") + ">"
+                    self.toks.append(dict(kind="end", bytes=end.encode(), id=eid, name=ename, anc=list(anc)))
                 else:
                     # left open: nothing may follow at outer levels either (keeps the tree well nested)
                     self.stop = True
@@ -98,16 +109,25 @@ class Doc:
     def start_tag(self, rng, name, anc, void):
         eid = self.next_id
         self.next_id += 1
-        attrs = rng.sample(ATTRS, rng.choice([0, 0, 1, 1, 2, 3]))
-        s = "<" + (name.upper() if rng.random() < 0.1 else name)
+        attrs = rng.sample(ATTRS, rng.choice([0, 1, 1, 2, 3, 4]))
+        wname = name.upper() if rng.random() < 0.1 else name
+        s = "<" + wname
+        avals = []
         for a in attrs:
-            q = rng.choice(['"', "'", ""])
-            v = rng.choice(["v", "1", "a-b", ""]) if q else rng.choice(["v", "1"])
-            s += " " + a + ("=" + q + v + q if rng.random() < 0.9 else "")
+            r = rng.random()
+            if r < 0.2:
+                s += " " + a  # valueless: present, value ""
+                v = ""
+            else:
+                q = rng.choice(['"', "'", ""])
+                # all three syntaxes of an empty value: x="", x='', x (above); unquoted values are never empty
+                v = rng.choice(["v", "1", "a-b", "", "", ""]) if q else rng.choice(["v", "1"])
+                s += " " + a + "=" + q + v + q
+            avals.append((a.lower(), v))
         sc = void and rng.random() < 0.3
         s += (" /" if sc else "") + ">"  # the space keeps `/` out of an unquoted value
         self.toks.append(
-            dict(kind="start", bytes=s.encode(), id=eid, name=name, attrs=[a.lower() for a in attrs], chc=not void, sc=sc, anc=list(anc))
+            dict(kind="start", bytes=s.encode(), id=eid, name=name, wname=wname, attrs=avals, chc=not void, sc=sc, anc=list(anc))
         )
         return eid
 
@@ -192,14 +212,15 @@ def predict(doc, cfg, cuts):
                     text_open = None
                 k = t["kind"]
                 if k == "start":
-                    d = "e/%d/%d/%d/%s" % (t["id"], t["chc"], t["sc"], ",".join(hx(x) for x in t["attrs"]))
+                    d = "e/%d/%d/%d/%s/%s" % (
+                        t["id"], t["chc"], t["sc"], ",".join(hx(n) + ":" + (hx(v) if v else "") for n, v in t["attrs"]), hx(t["wname"]))
                     units.append((d, cfg.unit_handlers(t)))
                 elif k == "end":
-                    units.append(("g/%d" % t["id"], []))
+                    units.append(("g/%d/%s" % (t["id"], hx(t["name"])), []))
                 elif k == "comment":
-                    units.append(("c", cfg.unit_handlers(t)))
+                    units.append(("c/" + hx(t["text"]), cfg.unit_handlers(t)))
                 elif k == "doctype":
-                    units.append(("d/" + t["flags"], cfg.unit_handlers(t)))
+                    units.append(("d/" + "/".join("~" if x is None else hx(x) for x in t["ids"]), cfg.unit_handlers(t)))
         end_units = []
         if text_open is not None:
             end_units.append(("t/1", text_open))
@@ -294,20 +315,21 @@ class Scripts:
         for _ in range(n):
             r = rng.random()
             if kind == "element":
-                if r < 0.12:
+                if r < 0.1:
                     v = self.fresh()
                     ops.append("sg %d %d" % (v, rng.choice([0, 1])))
                     self.maybe_free(ops, v)
-                elif r < 0.22:
+                elif r < 0.24:
+                    # present (possibly empty) and absent attributes alike: document attribute names first
                     v = self.fresh()
-                    ops.append("og %d 4 1 %s" % (v, self.arg(ATTRS + GOOD_NAMES, BAD_ATTR_NAMES)))
+                    ops.append("og %d 4 1 %s" % (v, self.arg(ATTRS + ATTRS + GOOD_NAMES, BAD_ATTR_NAMES)))
                     self.maybe_free(ops, v)
                 elif r < 0.3:
                     ops.append("ig 5 %s" % self.arg(ATTRS + GOOD_NAMES, BAD_ATTR_NAMES))
                 elif r < 0.38:
                     ops.append("fa 2 1 %s" % self.arg(GOOD_NAMES, BAD_TAG_NAMES, 0.2))
                 elif r < 0.5:
-                    ops.append("fa 6 2 %s %s" % (self.arg(ATTRS + GOOD_NAMES, BAD_ATTR_NAMES, 0.15), self.arg(CONTENT)))
+                    ops.append("fa 6 2 %s %s" % (self.arg(ATTRS + GOOD_NAMES, BAD_ATTR_NAMES, 0.15), self.arg(CONTENT + ["", ""])))
                 elif r < 0.56:
                     ops.append("in 7 0 1 %s" % self.arg(ATTRS + GOOD_NAMES, BAD_ATTR_NAMES))
                 elif r < 0.68:
@@ -324,7 +346,7 @@ class Scripts:
                     if f == 8:
                         has_prepend_stream = True
                     ops.append("st %d %s" % (f, self.sarg()))
-                elif r < 0.95:
+                elif r < 0.93:
                     if rng.random() < 0.85:
                         ops.append("eh %d" % self.end_tag_script())
                         self.flags.add("end-tag-handler")
@@ -339,6 +361,10 @@ class Scripts:
                     self.maybe_free(ops, v)
                 elif r < 0.35:
                     ops.append("fa 31 1 %s" % self.arg(COMMENTS + ["n"], BAD_COMMENT, 0.2))
+                    if rng.random() < 0.5:  # read back what was set (possibly "")
+                        v = self.fresh()
+                        ops.append("sg %d 30" % v)
+                        self.maybe_free(ops, v)
                 elif r < 0.6:
                     self.common_content(ops, [10, 11, 13])
                 elif r < 0.68:
@@ -361,10 +387,11 @@ class Scripts:
                 else:
                     ops.append("st %d %s" % (rng.choice([10, 11, 13]), self.sarg()))
             elif kind == "doctype":
-                if r < 0.5:
-                    v = self.fresh()
-                    ops.append("og %d %d 0" % (v, rng.choice([50, 51, 52])))
-                    self.maybe_free(ops, v)
+                if r < 0.6:
+                    for f in rng.sample([50, 51, 52], rng.choice([1, 2, 3])):
+                        v = self.fresh()
+                        ops.append("og %d %d 0" % (v, f))
+                        self.maybe_free(ops, v)
                 elif r < 0.65:
                     ops.append("vo %d" % rng.choice([14, 20]))
                 elif r < 0.85:
@@ -379,7 +406,11 @@ class Scripts:
                     ops.append("sg %d %d" % (v, rng.choice([60, 61])))
                     self.maybe_free(ops, v)
                 elif r < 0.4:
-                    ops.append("in 62 0 1 %s" % self.arg(GOOD_NAMES))
+                    ops.append("in 62 0 1 %s" % self.arg(GOOD_NAMES + ["", ""]))  # no validation: "" is legal here
+                    if rng.random() < 0.6:  # read it back (possibly "")
+                        v = self.fresh()
+                        ops.append("sg %d %d" % (v, rng.choice([60, 61])))
+                        self.maybe_free(ops, v)
                 elif r < 0.65:
                     self.common_content(ops, [10, 11, 13])
                 elif r < 0.72:
@@ -593,6 +624,10 @@ def stats(cases, obs):
                 c["error-left-pending"] += 1
             if "D:-" not in o:
                 c["with-streaming-handler"] += 1
+        body = o.split("|")[0].split()
+        c["str-null(s0)"] += body.count("s0")
+        c["str-empty(se)"] += body.count("se")
+        c["str-nonempty(s1)"] += body.count("s1")
         if "ORACLE" in o:
             c["oracle:" + o.split("||ORACLE:")[1].split()[0]] += 1
     return dict(c)
